@@ -67,10 +67,10 @@ impl KeepSortedValidator {
         if let Some(caps) = regex.captures(line) {
             if let Some(m) = caps.name("value") {
                 let range = m.range();
-                Some((m.as_str(), range.start + 1..=range.end))
+                Some((m.as_str(), range.start + 1..=range.end.max(range.start + 1)))
             } else if let Some(m) = caps.get(0) {
                 let range = m.range();
-                Some((m.as_str(), range.start + 1..=range.end))
+                Some((m.as_str(), range.start + 1..=range.end.max(range.start + 1)))
             } else {
                 None
             }
